@@ -117,6 +117,10 @@ func summarize(v reflect.Value) string {
 }
 
 func main() {
+	if len(os.Args) > 1 && os.Args[1] == "demo9" {
+		demo9()
+		return
+	}
 	if len(os.Args) > 1 && os.Args[1] == "demo8" {
 		demo8()
 		return
